@@ -65,6 +65,10 @@ pub enum SetOp {
 #[derive(Debug, Clone, Serialize)]
 pub struct Case {
     pub voice: VoiceChoice,
+    /// further voices with the same metadata (variants of a generated `voice`) and the
+    /// interpolation weights [duration, parameter per stream.., gv per stream..] to use with them
+    pub extra_voices: Vec<crate::voice::VoiceSpec>,
+    pub weights: Vec<Vec<f64>>,
     pub cond: Cond,
     pub jobs: Vec<Job>,
     /// noise setter calls made before the final values on the second engine
@@ -175,6 +179,39 @@ fn final_ops(cond: &Cond) -> Vec<SetOp> {
     v
 }
 
+/// Engine of the case: a single voice, or a voice set with non-uniform interpolation weights.
+fn case_engine(c: &Case) -> Result<(Engine, crate::engine_case::VoiceInfo), Failure> {
+    if c.extra_voices.is_empty() {
+        return build_engine(&c.voice);
+    }
+    let VoiceChoice::Generated(base) = &c.voice else { return build_engine(&c.voice) };
+    let mut voices = Vec::new();
+    for spec in std::iter::once(base.as_ref()).chain(c.extra_voices.iter()) {
+        let tmp = crate::voice::TempVoice(crate::voice::write_temp(&spec.to_bytes(), "c03"));
+        let v = jbonsai::model::load_htsvoice_file(&tmp.0).map_err(|e| Failure::new("load-valid-voice", format!("generated voice rejected: {}", e)))?;
+        voices.push(std::sync::Arc::new(v));
+    }
+    let mut e = crate::engine_case::engine_from_voices(voices)?;
+    let ns = base.streams.len();
+    let iw = e.condition.get_interporation_weight_mut();
+    let bad = |e: jbonsai::model::interporation_weight::WeightError| Failure::new("valid-weights-rejected", e.to_string());
+    iw.set_duration(&c.weights[0]).map_err(bad)?;
+    for i in 0..ns {
+        iw.set_parameter(i, &c.weights[1 + i]).map_err(bad)?;
+        iw.set_gv(i, &c.weights[1 + ns + i]).map_err(bad)?;
+    }
+    let info = crate::engine_case::VoiceInfo {
+        stage: base.stage,
+        use_log_gain: base.use_log_gain,
+        alpha0: base.alpha,
+        nstate: base.num_states,
+        nstreams: ns,
+        rate0: base.sampling_frequency,
+        fperiod0: base.frame_period,
+    };
+    Ok((e, info))
+}
+
 pub struct SharedEngine;
 
 impl Prop for SharedEngine {
@@ -183,7 +220,7 @@ impl Prop for SharedEngine {
         "shared-engine".into()
     }
     fn rule(&self) -> String {
-        "engine (generated voice 90 %, bundled/perturbed 10 %) with a generated in-envelope condition; 2..16 jobs with their own label lists (1..6 labels), each either synthesize or a generator consumed in chunks then finished; all jobs run concurrently on ONE shared &Engine (scoped threads, barrier, generated per-thread spin stagger) and must be bit-identical to the sequential reference; also: repeat, clone, interleaving with a half-consumed live generator, getters unchanged by every call, and a second engine that reaches the same final setter values through a generated detour in a generated order gives equal getters and waveform. Non-trivial: >= 2 threads running different utterances concurrently".into()
+        "engine (generated voice 90 % - a third of them as a SET of 2..4 same-metadata voices with non-uniform interpolation weights -, bundled/perturbed 10 %) with a generated in-envelope condition; 2..16 jobs with their own label lists (1..6 labels), each either synthesize or a generator consumed in chunks then finished; all jobs run concurrently on ONE shared &Engine (scoped threads, barrier, generated per-thread spin stagger) and must be bit-identical to the sequential reference; also: repeat, clone, interleaving with a half-consumed live generator, getters unchanged by every call, and a second engine that reaches the same final setter values through a generated detour in a generated order gives equal getters and waveform. Non-trivial: >= 2 threads running different utterances concurrently".into()
     }
     fn tape_len(&self, _: Tier) -> usize {
         14000
@@ -197,15 +234,22 @@ impl Prop for SharedEngine {
     }
     fn decode(&self, t: &mut Tape, _: Tier) -> Case {
         let voice = gen_voice_choice(t, 10, GenOpts::default());
-        let nstreams = match &voice {
-            VoiceChoice::Generated(v) => v.streams.len(),
-            _ => 3,
-        };
+        let nstreams = voice.nstreams();
         let mut cond = gen_cond(t, nstreams);
         // keep the cost bounded: no extreme slow-down with large frame periods
         if cond.speed < 0.5 {
             cond.speed = 0.5;
         }
+        // a third of the generated-voice cases use a voice SET with non-uniform weights
+        let (extra_voices, weights) = match &voice {
+            VoiceChoice::Generated(base) if t.chance(0.35) => {
+                let n_extra = t.urange(1, 3);
+                let extra: Vec<_> = (0..n_extra).map(|_| crate::voice::variant_voice(t, base)).collect();
+                let w = (0..1 + 2 * nstreams).map(|_| crate::engine_case::simplex_weights(t, n_extra + 1)).collect();
+                (extra, w)
+            }
+            _ => (vec![], vec![]),
+        };
         let k = t.urange(2, 16);
         let jobs = (0..k)
             .map(|_| {
@@ -235,10 +279,10 @@ impl Prop for SharedEngine {
             let j = t.below(i + 1);
             final_order.swap(i, j);
         }
-        Case { voice, cond, jobs, detour, final_order }
+        Case { voice, extra_voices, weights, cond, jobs, detour, final_order }
     }
     fn check(&self, c: &Case) -> Result<Report, Failure> {
-        let (mut engine, info) = build_engine(&c.voice)?;
+        let (mut engine, info) = case_engine(c)?;
         c.cond.apply(&mut engine);
         // size guard (frames x fperiod) via the cheap generator path
         let fp = engine.condition.get_fperiod();
@@ -325,7 +369,7 @@ impl Prop for SharedEngine {
         }
         ensure!(observe(&engine) == before, "engine-mutated", "concurrent synthesis changed the engine's observable settings");
         // (d) different setter history, same final values
-        let (mut other, _) = build_engine(&c.voice)?;
+        let (mut other, _) = case_engine(c)?;
         for op in &c.detour {
             apply_set(&mut other, op);
         }
@@ -334,7 +378,7 @@ impl Prop for SharedEngine {
             apply_set(&mut other, &fin[*i]);
         }
         // values not covered by final_ops keep their detour value: re-apply defaults for them
-        let (fresh, _) = build_engine(&c.voice)?;
+        let (fresh, _) = case_engine(c)?;
         if c.cond.alpha.is_none() {
             other.condition.set_alpha(fresh.condition.get_alpha());
         }
@@ -361,6 +405,7 @@ impl Prop for SharedEngine {
         let distinct = c.jobs.iter().map(|j| &j.labels).collect::<std::collections::HashSet<_>>().len();
         rep.nontrivial = c.jobs.len() >= 2 && distinct >= 2;
         rep.class(c.voice.class());
+        rep.class_if(!c.extra_voices.is_empty(), &format!("voice-set:{}", c.extra_voices.len() + 1));
         rep.class(format!("threads:{}", match c.jobs.len() { 2..=4 => "2-4", 5..=8 => "5-8", _ => "9-16" }));
         rep.class_if(c.jobs.iter().any(|j| j.chunk > 0), "has-generator-job");
         rep.metric("thread_jobs", c.jobs.len() as f64);
@@ -383,9 +428,9 @@ pub struct HistCase {
 
 pub fn decode_hist(t: &mut Tape) -> HistCase {
     let voice = gen_voice_choice(t, 6, GenOpts { max_depth: 2, ..GenOpts::default() });
-    let (nstreams, rate0, fp0, nstate) = match &voice {
-        VoiceChoice::Generated(v) => (v.streams.len(), v.sampling_frequency, v.frame_period, v.num_states),
-        _ => (3, 48000, 240, 5),
+    let (nstreams, rate0, fp0, nstate) = match voice.base_spec() {
+        Some(v) => (v.streams.len(), v.sampling_frequency, v.frame_period, v.num_states),
+        None => (3, 48000, 240, 5),
     };
     let mut cond_a = gen_cond(t, nstreams);
     if cond_a.speed < 0.5 {
